@@ -36,6 +36,9 @@ def encode_array(obj):
     def default_encode(obj):
         return obj.tolist(), {}
 
+    # the per-line metadata is kept as plain lists
+    obj = np.asarray(obj)
+
     encoders = {
         "m": encode_timedelta,
         "M": encode_datetime,
